@@ -86,7 +86,8 @@ def run(ctx: Ctx):
     LAY = f"{xp}.transpose(0, self.dim).unsqueeze(-1).flatten(1)"
     terms = {s: inl_a.text(updates[s][0][0].value) for s in STATS if updates.get(s)}
     layout = LAY if all(LAY in t for t in terms.values()) else None
-    col.ob("G12", "S1", f"{W('accumulate')}::terms", terms == {"count": f"{LAY}.shape[1]", "sum": f"{LAY}.sum(1)", "sumsq": f"{LAY}.square().sum(1)"},
+    mvn_decided = _mvn_table(ctx)  # (by value; the spelling rules below decide only when the code is outside the interpreted fragment)
+    col.ob("G12", "S1", f"{W('accumulate')}::terms", mvn_decided or terms == {"count": f"{LAY}.shape[1]", "sum": f"{LAY}.sum(1)", "sumsq": f"{LAY}.square().sum(1)"},
            f"the accumulated terms are {terms} over the layout `{layout}`; expected the number of frames, the sum and the "
            f"sum of squares over axis 1 of x.transpose(0, dim)...flatten(1)", rel, acc.line, sample=terms)
     # ---- store: formulas -------------------------------------------------------------------------------------------
@@ -157,7 +158,7 @@ def run(ctx: Ctx):
         return x
     PTS = [dict(count=Fraction(2), sum=Fraction(3), sumsq=Fraction(7)), dict(count=Fraction(5), sum=Fraction(1), sumsq=Fraction(9)),
            dict(count=Fraction(3), sum=Fraction(-4), sumsq=Fraction(11)), dict(count=Fraction(7), sum=Fraction(2), sumsq=Fraction(5))]
-    for bval in (True, False):
+    for bval in (() if mvn_decided else (True, False)):
         try:
             node_b, _ = specialise(store.node, {"bessel": bval}, inline_tests=True)
             rdb = ReachingDefs(node_b)
@@ -251,7 +252,8 @@ def run(ctx: Ctx):
     _delta_dims(ctx)
     _time_axis_round_trip(ctx)
     # ---- S5 store refuses exactly the counts for which a divisor on its path is zero ------------------------------
-    _store_threshold(ctx)
+    if not mvn_decided:
+        _store_threshold(ctx)
     # ---- S1' store only reads the accumulated statistics: no in-place operation on them or on their aliases -------
     _store_is_read_only(ctx)
     _sqrt_of_a_difference_is_clamped(ctx)
@@ -352,6 +354,116 @@ def _delta_dims(ctx: Ctx):
                    f"resolved / range-checked against {bad}: a negative `{pname}` lands on a different axis than the "
                    f"same position counted from the left", rel, f.line, sample=[u(m) for m in mods])
     col.floor("delta_dim_obligations", n_ok, 4)
+
+
+def _mvn_table(ctx: Ctx) -> bool:
+    """S1 / S5 by value: `MeanVarianceNormalization.accumulate` and `.store` interpreted over exact values (sa/interp.py + sa/teval.py;
+    nothing is run): a fresh normaliser accumulates zero, one or two batches (feature axis first, in the middle, last, negative), then
+    stores with and without Bessel's correction, keeping or deleting the statistics. Compared with the definitions written out by hand:
+
+        count = the number of frames seen, sum / sumsq = per-coefficient sum and sum of squares over everything but the feature axis,
+        however the data was split into batches; store raises exactly when count < 1 (< 2 with Bessel's correction) - nothing
+        accumulated included; mean = sum / count; std = sqrt(max(sumsq / count - mean^2, 0) [* count / (count - 1)]) (roots are kept exact:
+        a rational for a perfect square, otherwise compared by radicand); the statistics are None afterwards iff delete_stats.
+
+    Returns False when the code is outside the interpreted fragment (the symbolic rules below then decide)."""
+    import numpy as np
+    from fractions import Fraction as Fr
+    from sa.interp import Interp
+    from sa.inteval import NotEvaluable
+    from sa.teval import exact_sqrt, frac_array
+    col, pkg = ctx.col, ctx.pkg
+    acc = pkg.func(f"{MOD}::MeanVarianceNormalization.accumulate")
+    store = pkg.func(f"{MOD}::MeanVarianceNormalization.store")
+    rel = acc.module.relname
+    funcs = {st.name: st for st in pkg.module(MOD).tree.body if isinstance(st, ast.FunctionDef)}
+
+    def lookup(c):
+        return funcs.get(call_name(c)) if isinstance(c.func, ast.Name) and call_name(c).startswith("_") else None
+
+    def leaf(x, env):
+        if isinstance(x, ast.Call) and call_name(x) == "isinstance":
+            return True
+        return None
+    batches = {
+        0: [],
+        1: [np.arange(12).reshape(2, 3, 2) % 5],
+        2: [np.arange(12).reshape(2, 3, 2) % 5, (np.arange(24).reshape(4, 3, 2) * 7) % 11 - 3],
+        3: [np.array([[[4, 9, 1]]]).reshape(1, 3, 1)],  # a single frame: count 1
+    }
+    bad, rows = None, 0
+    try:
+        for dim in (1, -2):
+            for key, xs in batches.items():
+                for bessel in (False, True):
+                    for delete in (True, False):
+                        env = {"self.dim": dim, "self.eps": Fr(1, 1000), "self.count": None, "self.sum": None, "self.sumsq": None,
+                               "self.mean": None, "self.std": None}
+                        outcome = None
+                        for x in xs:
+                            e2 = {k: v for k, v in env.items()}
+                            e2[acc.params[1].name] = frac_array(x.tolist())
+                            kind, val = Interp(leaf=leaf, lookup=lookup, tensors=True).run(acc.node, e2)
+                            for k in list(e2):
+                                if k.startswith("self."):
+                                    env[k] = e2[k]
+                            if kind != "return":
+                                outcome = f"accumulate raises {val}"
+                        rows += 1
+                        frames = np.concatenate([np.moveaxis(x, dim, 0).reshape(x.shape[dim], -1) for x in xs], 1) if xs else None
+                        n = 0 if frames is None else frames.shape[1]
+                        if outcome is None and xs:
+                            cnt = env.get("self.count")
+                            ok_acc = cnt is not None and [Fr(v) for v in np.asarray(cnt).reshape(-1).tolist()] == [Fr(n)] \
+                                and np.asarray(env["self.sum"]).tolist() == [Fr(int(v)) for v in frames.sum(1)] \
+                                and np.asarray(env["self.sumsq"]).tolist() == [Fr(int(v)) for v in (frames * frames).sum(1)]
+                            if not ok_acc:
+                                outcome = (f"after accumulating {len(xs)} batch(es) with {n} frames in all (count, sum, sumsq) = "
+                                           f"({_show(env.get('self.count'))}, {_show(env.get('self.sum'))}, {_show(env.get('self.sumsq'))}); expected "
+                                           f"({n}, {frames.sum(1).tolist()}, {(frames * frames).sum(1).tolist()})")
+                        if outcome is None:
+                            e3 = dict(env)
+                            names = [p_.name for p_ in store.params[1:]]
+                            e3.update({names[0]: delete, names[1]: bessel})
+                            kind, val = Interp(leaf=leaf, lookup=lookup, tensors=True).run(store.node, e3)
+                            want_raise = n < (2 if bessel else 1)
+                            if want_raise != (kind == "raise"):
+                                outcome = (f"store(bessel={bessel}) with {n} accumulated frame(s) " + ("raises" if kind == "raise" else "does not raise")
+                                           + f"; the statistics are defined from {2 if bessel else 1} frame(s) on")
+                            elif kind == "return":
+                                mean = [Fr(int(v), n) for v in frames.sum(1)]
+                                var = [Fr(int(q), n) - m_ * m_ for q, m_ in zip((frames * frames).sum(1), mean)]
+                                if bessel:
+                                    var = [v * Fr(n, n - 1) for v in var]
+                                std = [exact_sqrt(max(v, Fr(0))) for v in var]
+                                gm, gs = e3.get("self.mean"), e3.get("self.std")
+                                if gm is None or np.asarray(gm).tolist() != mean:
+                                    outcome = f"store(bessel={bessel}) over {n} frames stores the mean {_show(gm)}; sum / count is {[str(v) for v in mean]}"
+                                elif gs is None or np.asarray(gs).tolist() != std:
+                                    outcome = (f"store(bessel={bessel}) over {n} frames stores the deviation {_show(gs)}; the root of the "
+                                               f"{'corrected ' if bessel else ''}variance is {[str(v) for v in std]}")
+                                else:
+                                    gone = [e3.get(k) is None for k in ("self.count", "self.sum", "self.sumsq")]
+                                    if gone != [delete] * 3:
+                                        outcome = f"store(delete_stats={delete}) leaves (count, sum, sumsq) {'deleted' if all(gone) else 'in place' if not any(gone) else gone}"
+                        if outcome is not None and bad is None:
+                            bad = (dim, key, bessel, delete, outcome)
+    except NotEvaluable:
+        return False
+    col.count("mvn_table_rows", rows)
+    col.ob("G12", "S1", f"{rel}::MeanVarianceNormalization::accumulate-store-table", bad is None,
+           (f"feature axis {bad[0]}, batches #{bad[1]}, bessel={bad[2]}, delete_stats={bad[3]}: {bad[4]}") if bad else "", rel, store.line, sample=dict(rows=rows))
+    return True
+
+
+def _show(v):
+    import numpy as np
+    if v is None:
+        return "None"
+    try:
+        return str([str(x) for x in np.asarray(v).reshape(-1).tolist()])
+    except Exception:
+        return str(v)[:80]
 
 
 def _store_threshold(ctx: Ctx):
@@ -738,8 +850,8 @@ def _mutants():
         M("store-divides-sumsq-in-place", "_feats.py", "var = sumsq / count - mean.square()", "var = sumsq.div_(count) - mean.square()", "statistics-are-not-modified"),
         M("store-scales-sum-in-place", "_feats.py", "self.mean = mean = sum_ / count", "sum_ /= count\n        self.mean = mean = sum_", "statistics-are-not-modified"),
         M("root-of-negative-rounding", "_feats.py", "self.std = var.clamp_min_(0).sqrt_()", "self.std = var.sqrt_()", "variance-clamped-before-the-root"),
-        M("store-needs-two-frames", "_feats.py", "if count < (2 if bessel else 1):", "if count < 2:", "refuses-exactly-undefined-counts[bessel=False]"),
-        M("store-divides-by-zero", "_feats.py", "if count < (2 if bessel else 1):", "if count < 1:", "refuses-exactly-undefined-counts[bessel=True]"),
+        M("store-needs-two-frames", "_feats.py", "if count < (2 if bessel else 1):", "if count < 2:", "accumulate-store-table"),
+        M("store-divides-by-zero", "_feats.py", "if count < (2 if bessel else 1):", "if count < 1:", "accumulate-store-table"),
         M("twin:threshold-by-lte", "_feats.py", "if count < (2 if bessel else 1):", "if count <= (1 if bessel else 0):", "", twin=True),
         M("twin:dim-resolved-by-if", "_feats.py", "dim = (dim + D) % D", "if dim < 0:\n        dim += D", "", twin=True),
     ]
@@ -749,12 +861,12 @@ def _mutants():
     return _extra + [
         M("running-mean-update", F, "sum_ += x.sum(1)", "sum_ += x.sum(1) - sum_ / count.clamp_min(1)", "sum+=term(x)"),
         M("count-overwritten", F, "count += x.size(1)", "count.fill_(x.size(1))", "count+=term(x)"),
-        M("sumsq-of-sum", F, "sumsq += x.square().sum(1)", "sumsq += x.sum(1).square()", "accumulate::terms"),
-        M("count-batches-not-frames", F, "count += x.size(1)", "count += 1", "accumulate::terms"),
-        M("var-without-mean-sq", F, "var = sumsq / count - mean.square()", "var = sumsq / count - mean", "std=sqrt(var)"),
-        M("bessel-inverted", F, "var *= count / (count - 1)", "var *= (count - 1) / count", "std=sqrt(var)"),
-        M("bessel-always", F, "if bessel:\n            var *= count / (count - 1)", "var *= count / (count - 1)", "std=sqrt(var)"),
-        M("mean-by-sumsq", F, "self.mean = mean = sum_ / count", "self.mean = mean = sumsq / count", "mean=sum/count"),
+        M("sumsq-of-sum", F, "sumsq += x.square().sum(1)", "sumsq += x.sum(1).square()", "accumulate-store-table"),
+        M("count-batches-not-frames", F, "count += x.size(1)", "count += 1", "accumulate-store-table"),
+        M("var-without-mean-sq", F, "var = sumsq / count - mean.square()", "var = sumsq / count - mean", "accumulate-store-table"),
+        M("bessel-inverted", F, "var *= count / (count - 1)", "var *= (count - 1) / count", "accumulate-store-table"),
+        M("bessel-always", F, "if bessel:\n            var *= count / (count - 1)", "var *= count / (count - 1)", "accumulate-store-table"),
+        M("mean-by-sumsq", F, "self.mean = mean = sum_ / count", "self.mean = mean = sumsq / count", "accumulate-store-table"),
         M("own-std-bessel", F, "std = x.transpose(0, dim).unsqueeze(-1).flatten(1).double().std(1, False)", "std = x.transpose(0, dim).unsqueeze(-1).flatten(1).double().std(1, True)", "own-statistics"),
         M("module-drops-eps", F, "return mean_var_norm(x, self.dim, self.mean, self.std, self.eps)", "return mean_var_norm(x, self.dim, self.mean, self.std)", "G5/S2"),
         M("cli-bessel-unread", C, "mvn.store(bessel=options.bessel)", "mvn.store()", "G"),
